@@ -317,14 +317,18 @@ def sec_compute_local(rep):
                             return []
 
                     kernels = []
+
+                    # ONE coefficient class for all kernels, and kernels 0 and 2 share their convolution
+                    # point: what distinguishes two kernels is the object (its mass, its threshold), so
+                    # every kernel's own RSL is convolved -- nothing may be shared by class and point
+                    class Coeff(dict):
+                        def __init__(s, k):
+                            s.k = k
+
+                        def convolution_point(s):
+                            return getattr(sy, f"cp{0 if s.k == 2 else s.k}")
+
                     for k in range(nk):
-                        class Coeff(dict):
-                            def __init__(s, k):
-                                s.k = k
-
-                            def convolution_point(s):
-                                return getattr(sy, f"cp{s.k}")
-
                         c = Coeff(k)
                         for o in range(4):
                             # kernel 0 has no order-1 RSL; kernel 1 is silenced above order 1
@@ -386,7 +390,7 @@ def sec_compute_local(rep):
                                 for k, ker in enumerate(kernels):
                                     if not ker.has_order(o) or (k == 0 and o == 1) or pid not in ker.partons:
                                         continue
-                                    cp = getattr(sy, f"cp{k}")
+                                    cp = getattr(sy, f"cp{0 if k == 2 else k}")
                                     exp_v = exp_v + ker.partons[pid] * cp * sy.U("conv", str(("rsl", k, o)), j, cp)
                                     exp_e = exp_e + shim.abs(ker.partons[pid]) * cp * sy.U("cerr", str(("rsl", k, o)), j, cp)
                                 if pid in (1, -2, 21, 2, 5) or j == 0:
